@@ -3,6 +3,11 @@ import p_codec
 
 CHECKS = {
     "C01": p_codec.check_C01,
+    "C17": p_codec.check_C17,
+    "C02": p_codec.check_C02,
+    "C18": p_codec.check_C18,
+    "C03": p_codec.check_C03,
+    "C11": p_codec.check_C11,
 }
 
 
